@@ -14,15 +14,18 @@ from mc import common, cache, fsx
 from mc.common import Stats
 
 DEFS = [('A', 'def'), ('A2', 'def'), ('E', 'def'), ('C', 'def'), ('V', 'def'), ('A', 'noann'), ('A2', 'noann'), ('A', 'novec'),
-        ('C', 'novec'), ('A', 'off'), ('A2', 'uonly'), ('B', 'ponly'), ('E2', 'def')]
+        ('C', 'novec'), ('A', 'off'), ('A2', 'uonly'), ('B', 'ponly'), ('E2', 'def'), ('A', 'uonly')]
 CTRL = [('newproc',), ('tick',), ('forget',), ('bytecode',)]
 CLOCK0 = 1500000000
 
 
+DESC = [('D', 'def'), ('D2', 'def'), ('D', 'novec')]     # the same per-field code, another descriptor: only the sync prologue of pack differs
 BIG = [('L', 'def'), ('L2', 'def'), ('L', 'uonly')]     # 41 fields: generated code of more than 4 KiB per direction, a cache file of more than 8 KiB
 
 
 def alphabet(tier, big=False):
+    if big == 'desc':
+        return [('define',) + d for d in DESC] + CTRL
     if big:
         return [('define',) + d for d in BIG] + CTRL
     defs = DEFS if tier == 'thorough' else DEFS[:7] + DEFS[9:]
@@ -130,7 +133,9 @@ def _shard(shard, nshards, payload):
     idx = 0
     replayed = 0
     seeds = [(), (('define', 'A', 'def'), ('newproc',)), (('define', 'A2', 'noann'), ('newproc',), ('define', 'A2', 'noann'), ('newproc',))]
-    if payload.get('big'):
+    if payload.get('big') == 'desc':
+        seeds = [(), (('define', 'D2', 'def'), ('newproc',), ('define', 'D2', 'def'), ('newproc',))]
+    elif payload.get('big'):
         seeds = [(), (('define', 'L', 'def'), ('newproc',), ('define', 'L', 'def'), ('newproc',))]
     for d, pre, tail in [(d, pre, tail) for pre in seeds for d in range(1, depth + 1) for tail in itertools.product(ops, repeat=d)]:
         for hist in (pre + tail,):
@@ -262,6 +267,7 @@ def run(tier):
     depth = 3 if tier == 'quick' else 4
     st = common.merge_all(common.run_sharded(_shard, {'tier': tier, 'depth': depth, 'replays': 3 if tier == 'quick' else 12}))
     st.merge(common.merge_all(common.run_sharded(_shard, {'tier': tier, 'depth': depth + 1, 'replays': 2, 'big': True})))
+    st.merge(common.merge_all(common.run_sharded(_shard, {'tier': tier, 'depth': depth, 'replays': 2, 'big': 'desc'})))
     st.merge(common.merge_all(common.run_sharded(real_shard, {'tier': tier})))
     st.merge(common.merge_all(common.run_sharded(similar_shard, {'tier': tier})))
     if not st.samples:
@@ -273,7 +279,7 @@ def run(tier):
         'real_process_replays': st.n.get('real_replays', 0), 'definitions_checked': st.n.get('definitions', 0),
         'real_process_histories_with_mixed_optimisation_levels': st.n.get('real_histories', 0), 'real_definitions': st.n.get('real_definitions', 0),
         'rule': 'all histories of length <=%d (also started from a cache directory that earlier processes filled for A resp. A2 with bytecode) ending in a definition over %d operations (define x %d declaration/option pairs incl. two declarations whose '
-                'generated source has the same length, new process, clock tick, bytecode toggle, forget sources), and all histories one longer over two LONG declarations (41 fields, a cache file of more than 8 KiB) that differ in the byte order of their last field, on real files with harness time stamps; plus all pairs of declarations that differ only in the ORDER of two three-letter field names over a three-letter alphabet (351 pairs, thorough 2016), defined one right after the other in one module '
+                'generated source has the same length, new process, clock tick, bytecode toggle, forget sources), and all histories one longer over two LONG declarations (41 fields, a cache file of more than 8 KiB) that differ in the byte order of their last field, and all histories over two declarations whose per-field code is identical but whose described field has another descriptor (AutoLength / a user-written one without sync hook), on real files with harness time stamps; plus all pairs of declarations that differ only in the ORDER of two three-letter field names over a three-letter alphabet (351 pairs, thorough 2016), defined one right after the other in one module '
                 '(everything within one second unless a tick occurs); every definition and every class still alive in the process checked on a battery '
                 'against its own declaration; transitions = interposed file-system steps; states = distinct final (directory contents+mtimes, clock)' % (
                     depth, len(alphabet(tier)), len(alphabet(tier)) - len(CTRL)),
